@@ -22,7 +22,7 @@ PrintCQC == \A S \in SUBSET Validators, gk \in GKinds, len \in Lens, sk \in SigK
                PrintT(<<"CASE", ToJson(CQCCase(S, gk, len, sk))>>)
 
 (* ---- timeout certificates: signer subset split in two groups (different reports) x corruption ---- *)
-TCorr == {"none", "overlap", "emptygroup", "viewmismatch", "len_short", "len_long", "genesis", "sig_other_signer", "sig_dropped",
+TCorr == {"none", "overlap", "emptygroup", "viewmismatch", "viewearlier", "len_short", "len_long", "genesis", "sig_other_signer", "sig_dropped",
           "nested_subquorum", "nested_badsig", "nested_genesis", "hv_genesis"}
 NestedQC(kind) ==
     [vote |-> Vprev, g |-> kind # "nested_genesis",
@@ -31,7 +31,7 @@ NestedQC(kind) ==
 TQCCase(S, G2, corr) ==      \* G2 \subseteq S : signers of the second group (report with high vote + nested certificate)
     LET G1 == S \ G2
         m1 == [view |-> 3, g |-> corr # "genesis", hv |-> NoVote, hvg |-> TRUE, hq |-> NoCQC]
-        m2 == [view |-> IF corr = "viewmismatch" THEN 4 ELSE 3, g |-> corr # "genesis", hv |-> V1, hvg |-> corr # "hv_genesis", hq |-> NestedQC(corr)]
+        m2 == [view |-> IF corr = "viewmismatch" THEN 4 ELSE IF corr = "viewearlier" THEN 2 ELSE 3, g |-> corr # "genesis", hv |-> V1, hvg |-> corr # "hv_genesis", hq |-> NestedQC(corr)]
         g1 == [msg |-> m1, signers |-> G1, len |-> IF corr = "len_short" THEN N - 1 ELSE IF corr = "len_long" THEN N + 1 ELSE N]
         g2 == [msg |-> m2, signers |-> IF corr = "overlap" /\ G1 # {} THEN G2 \cup {CHOOSE x \in G1 : TRUE} ELSE G2, len |-> N]
         g3 == [msg |-> [m1 EXCEPT !.hv = Vprev], signers |-> {}, len |-> N]
